@@ -66,6 +66,20 @@ def meta_family(tag):
         steps += [{"a": "closeDown", "g": "C", "obj": "D1", "ctxMs": 3000, "wait": True}, {"a": "quiesce"},
                   {"a": "closeConn", "g": "main2", "wait": True, "ctxMs": 2000}, {"a": "quiesce", "ms": 50}]
         scs.append({"id": "%s/meta/%d" % (tag, k), "kind": "iscp", "conn": {}, "steps": steps})
+    # polls with a context that is already done (or ends at once) while items are waiting: a poll returns either the context error or an
+    # item - an item must never be consumed by a poll that reports an error
+    for k, (n, polls, ctxms) in enumerate([(12, 30, -1), (12, 30, 1), (6, 12, -1)]):
+        steps = [{"a": "connect", "must": True}, {"a": "openDown", "obj": "D1", "qos": "reliable", "srcs": ["n1", "n2"], "ids": ["A"], "ackFlushMs": 20, "must": True}]
+        for j in range(n):
+            steps.append({"a": "sendDownMeta", "obj": "D1", "src": "n1" if j % 3 else "n2", "tag": 200 + j})
+        steps.append({"a": "sleep", "ms": 30})
+        for j in range(polls):
+            steps.append({"a": "readMeta", "g": "R2", "obj": "D1", "ctxMs": ctxms, "wait": True})
+        for j in range(n):
+            steps.append({"a": "readMeta", "g": "R2", "obj": "D1", "ctxMs": 300, "wait": True})
+        steps += [{"a": "closeDown", "g": "C", "obj": "D1", "ctxMs": 3000, "wait": True}, {"a": "quiesce"},
+                  {"a": "closeConn", "g": "main2", "wait": True, "ctxMs": 2000}, {"a": "quiesce", "ms": 50}]
+        scs.append({"id": "%s/metapoll/%d" % (tag, k), "kind": "iscp", "conn": {}, "steps": steps})
     return scs
 
 
